@@ -2,6 +2,14 @@
 
 package main
 
+import (
+	"fmt"
+	"os"
+	"path/filepath"
+
+	"github.com/jhalter/mobius/hotline"
+)
+
 // C08 — downloads deliver exactly the file's bytes.
 //
 // Generated files (contents, sizes, names, side files) are stored under a throw-away file root and
@@ -95,13 +103,14 @@ func genDiskFile(c *Case, ts *TS, maxSize int) (*diskFile, []byte, error) {
 
 func init() {
 	props["C08"] = func(x *Ctx) {
-		x.rule = "files generated per case (sizes 0,1,2, 15..17, 255..257, 4095..4097, 32767..32769, 65535..65537, random up to 2 KB / 200 KB / the tier maximum of 1 MiB quick and 8 MiB thorough; names with spaces, dots, leading dots, punctuation, Mac-Roman non-ASCII, long names, in the root or up to two sub-folders; none / .info_ / .info_+.rsrc_ / .rsrc_ side files, comments 0..300 bytes, information forks with and without a comment-size field) and downloaded with: no resume data, resume offsets 0,1,size-1,size,random, preview with and without resume data; transfer connections are read with random segmentation. non-trivial = the transfer handler delivered a stream for a granted request; distinct = distinct (name, size, fork combination, side-file sizes, offset, resume/preview flags)"
+		x.rule = "files generated per case (sizes 0,1,2, 15..17, 255..257, 4095..4097, 32767..32769, 65535..65537, random up to 2 KB / 200 KB / the tier maximum of 1 MiB quick and 8 MiB thorough; names with spaces, dots, leading dots, punctuation, Mac-Roman non-ASCII, long names, in the root or up to two sub-folders; none / .info_ / .info_+.rsrc_ / .rsrc_ side files, comments 0..300 bytes, information forks with and without a comment-size field) and downloaded with: no resume data, resume offsets 0,1,size-1,size,random, preview with and without resume data; transfer connections are read with random segmentation. family download-alias: aliases of such files made by the real Make Alias transaction (same name, other folder, optionally with an information fork next to the alias) and fixture links (other name and extension, relative target, link to a link), downloaded and resumed under the same monitors — an alias download is the target's bytes under the alias's name. non-trivial = the transfer handler delivered a stream for a granted request; distinct = distinct (name, size, fork combination, side-file sizes, offset, resume/preview flags)"
 		x.assume = []string{
 			"reading of DESIGN §7 C08: the 16-byte zero-length MACR fork header after the data is not counted by the transfer size and is the only accepted trailer without a stored resource fork",
 			"reference layouts in lean/MobiusModel/Wire.lean; type/creator codes by extension and the local-time date encoding are computed independently by the harness",
 			"offsets beyond the file size are outside the quantifier (model correspondence only)",
 		}
 		x.Add(&Family{Name: "download", Quick: 48, Thor: 640, Run: func(c *Case) { runC08(c, false) }})
+		x.Add(&Family{Name: "download-alias", Quick: 16, Thor: 96, Run: runC08Alias})
 		x.Add(&Family{Name: "download-large", Quick: 16, Thor: 96, Run: func(c *Case) { runC08(c, true) }})
 	}
 }
@@ -155,3 +164,104 @@ func runC08(c *Case, large bool) {
 	}
 }
 
+// runC08Alias: downloads of ALIASES.  An alias is a symbolic link; what a download of it must deliver is the
+// target's data fork — announced sizes = bytes delivered = the target's bytes — under the alias's own name, with
+// the side files (if any) that sit next to the alias.  Aliases are made by the real HandleMakeAlias (same name,
+// other folder) and, to cover other names, relative targets and chains, by the fixture.
+func runC08Alias(c *Case) {
+	r := c.R
+	ts, err := newTS(TSOpt{Direct: true})
+	if err != nil {
+		return
+	}
+	defer ts.Close()
+	set := &transferSet{ts: ts, x: c.X}
+	var post []func()
+	defer func() {
+		if !set.waitAll() {
+			c.Violation("transfer-handler-hangs", "a transfer handler did not return")
+		}
+		for _, f := range post {
+			f()
+		}
+	}()
+	cc, _ := ts.DirectClient("admin", []byte("admin"), "127.0.0.1:1234")
+	srcItems := [][]byte{genReqName(r, 16)}
+	dstItems := [][]byte{genReqName(r, 16)}
+	if string(srcItems[0]) == string(dstItems[0]) {
+		dstItems[0] = append(dstItems[0], 'x')
+	}
+	if r.Bool() {
+		dstItems = append(dstItems, genReqName(r, 12))
+	}
+	srcField, dstField := encodePathItems(srcItems), encodePathItems(dstItems)
+	id := uint32(1)
+	for fi := 0; fi < 5; fi++ {
+		req := genReqName(r, 60)
+		dir, name, err := diskNameOf(ts, srcField, req)
+		if err != nil {
+			continue
+		}
+		dstDir, _, err := diskNameOf(ts, dstField, req)
+		if err != nil || os.MkdirAll(dstDir, 0755) != nil {
+			continue
+		}
+		tgt := &diskFile{Dir: dir, Name: name, ReqName: req, Data: genData(r, c08Sizes(r, 200*1024)), ModTime: randModTime(r)}
+		if r.Chance(40) {
+			i := randInfoSpec(r, req)
+			tgt.Info = &i
+			if r.Bool() {
+				tgt.HasRsrc, tgt.Rsrc = true, genData(r, r.Intn(500))
+			}
+		}
+		if tgt.write() != nil {
+			continue
+		}
+		// (1) the real Make Alias transaction: same name, in the other folder
+		id++
+		res, _, pan := ts.Call(cc, mkTran(hotline.TranMakeFileAlias, id, fld(hotline.FieldFileName, req), fld(hotline.FieldFilePath, srcField), fld(hotline.FieldFileNewPath, dstField)))
+		if pan != nil || len(res) != 1 || res[0].ErrorCode != [4]byte{} {
+			c.Note("file", tgt.path())
+			c.Violation("make-alias-failed", "a granted Make Alias request for an existing file failed")
+			continue
+		}
+		alias := &diskFile{Dir: dstDir, Name: name, ReqName: req, Data: tgt.Data, ModTime: tgt.ModTime}
+		if fi, err := os.Lstat(alias.path()); err != nil || fi.Mode()&os.ModeSymlink == 0 {
+			c.Violation("make-alias-failed", "Make Alias did not create a link at the new path")
+			continue
+		}
+		if r.Chance(30) {
+			// side files next to the ALIAS are the alias's forks
+			i := randInfoSpec(r, req)
+			alias.Info, alias.InfoRaw = &i, i.encode()
+			os.WriteFile(filepath.Join(dstDir, ".info_"+name), alias.InfoRaw, 0644)
+		}
+		c.Dist("alias/made-by-handler")
+		for _, rq := range c08Requests(r, len(alias.Data)) {
+			id++
+			c.Note("alias_of", tgt.path())
+			checkDownload(c, ts, set, &post, cc, id, alias, dstField, rq)
+		}
+		// (2) fixture links: another name (other extension), relative target, and a link to the link
+		req2 := append([]byte(fmt.Sprintf("lnk%d-", fi)), req...)
+		req2 = append(req2, []byte(r.pickStr("", ".txt", ".jpg", ".zip"))...)
+		d2, n2, err := diskNameOf(ts, srcField, req2)
+		if err == nil && os.Symlink(name, filepath.Join(d2, n2)) == nil { // relative, same folder
+			l := &diskFile{Dir: d2, Name: n2, ReqName: req2, Data: tgt.Data, ModTime: tgt.ModTime}
+			c.Dist("alias/relative-other-name")
+			for _, rq := range c08Requests(r, len(l.Data))[:2] {
+				id++
+				c.Note("alias_of", tgt.path())
+				checkDownload(c, ts, set, &post, cc, id, l, srcField, rq)
+			}
+			req3 := append([]byte("chain-"), req2...)
+			d3, n3, err := diskNameOf(ts, dstField, req3)
+			if err == nil && os.Symlink(filepath.Join(d2, n2), filepath.Join(d3, n3)) == nil {
+				l3 := &diskFile{Dir: d3, Name: n3, ReqName: req3, Data: tgt.Data, ModTime: tgt.ModTime}
+				c.Dist("alias/chain")
+				id++
+				checkDownload(c, ts, set, &post, cc, id, l3, dstField, dlRequestSpec{resume: true, k: r.Intn(len(l3.Data) + 1)})
+			}
+		}
+	}
+}
